@@ -192,7 +192,9 @@ Lemma send_write_new_nout c m w : raw_seq m = false -> nout (rw (send_write c m 
 Proof.
   intros Hr. unfold send_write, encode. rewrite Hr, (raw_false_skip_false m Hr). msimp.
   assert (Hp : forall a b, pres nout (persist_out a b)) by (intros; apply persist_out_pres; ins_solve).
-  destruct (wr (set_nout (nout w + 1) w)); msimp; [rewrite Hp|]; reflexivity.
+  set (P := persist_out _ _ _).
+  assert (HP : nout (rw P) = nout w + 1) by (subst P; rewrite Hp; reflexivity).
+  destruct (rv P); cbn [rv rw re]; [|exact HP]. destruct (wr (rw P)); cbn [rv rw re ret raise]; exact HP.
 Qed.
 
 Lemma send_write_new c m w :
@@ -200,8 +202,8 @@ Lemma send_write_new c m w :
   send_write c m w = mkR (inl tt) (sent_world c m w) [Wire (mkMsg (mtype m) (wire_tags c (nout w) m))].
 Proof.
   intros Hr Hw Hi Hk. unfold send_write, encode. rewrite Hr, (raw_false_skip_false m Hr). msimp.
-  cbn [wr set_nout]. rewrite Hw. msimp. unfold persist_out. cbn [jr set_nout j_out]. rewrite Hi, Hk. cbn [negb].
-  reflexivity.
+  unfold persist_out. cbn [jr set_nout j_out]. rewrite Hi, Hk. cbn [negb rv rw re].
+  cbn. rewrite Hw. reflexivity.
 Qed.
 
 Lemma wire_tags_34 c n m : get T34 (wire_tags c n m) = Some (z_to_dec n).
@@ -237,7 +239,7 @@ Proof.
   destruct (st w <? ST_NCE) eqn:E0; [left; reflexivity|].
   destruct (st w =? ST_NCE) eqn:E.
   - destruct (mkind m); try (left; reflexivity); right; right; (split; [lia|]); (split; [auto|reflexivity]).
-  - destruct (_ && _ && _); [left; reflexivity|right; left; split; [lia|reflexivity]].
+  - destruct (_ && _ && _); [left; reflexivity|]. destruct (_ && _ && _); [left; reflexivity|right; left; split; [lia|reflexivity]].
 Qed.
 
 Lemma outstep_eta w {A} (x : res A) : OutStep w x -> OutStep w (mkR (rv x) (rw x) (re x)).
@@ -949,7 +951,7 @@ Proof.
   intros w Hi Hr. unfold part1 in *. rewrite bind_unfold in *. cbn [getw rv rw re app] in *.
   destruct (st w <? ST_NCE) eqn:E6; [apply outstep_id; exact Hi|].
   assert (Ha : alive w) by (unfold alive; stlia).
-  destruct (_ && _).
+  destruct (early_drop m w).
   - assert (H : outok (disconnect c ST_DISC_BROKEN None ;;; ret (@None bool))).
     { ok_step; [apply disconnect_outok|apply outok_ret|apply mono_ret]. }
     apply outstep_eta. apply H; assumption.
@@ -961,7 +963,7 @@ Qed.
 Lemma part1_mono c m : mono (part1 c m).
 Proof.
   unfold part1. mono_step; [mono_tac|]. destruct (st a <? ST_NCE); [apply mono_raise|].
-  destruct (_ && _).
+  destruct (early_drop m a).
   - mono_step; [apply disconnect_mono|apply mono_ret].
   - mono_step; [apply pre_handlers_mono|apply gap_check_mono].
 Qed.
@@ -1180,6 +1182,74 @@ Proof.
     split; [reflexivity|]. apply Hstep.
 Qed.
 
+(* ------------------------------------------------------------------ R8a: journal first, then write *)
+
+(* send_msg journals before it writes - for EVERY world, inside or outside the invariant:
+   when it raises (refusal, encoding error, journal error, closed writer) nothing was written;
+   when it returns, exactly one frame was written and - unless it is one of the unjournaled kinds -
+   that frame is in the outbound journal under its own number *)
+Lemma send_write_journal_first c m w :
+  match rv (send_write c m w) with
+  | inr _ => re (send_write c m w) = []
+  | inl _ => exists n, re (send_write c m w) = [Wire (mkMsg (mtype m) (wire_tags c n m))]
+                       /\ (skip_journal m = false ->
+                           In (n, mkMsg (mtype m) (wire_tags c n m)) (j_out (jr (rw (send_write c m w)))))
+  end.
+Proof.
+  unfold send_write. rewrite bind_unfold.
+  pose proof (encode_result c m w) as Hr. pose proof (encode_no_events c m w) as He.
+  destruct (encode c m w) as [r we ee]. cbn [rv rw re] in *. subst ee.
+  destruct r as [[n wm]|x]; cbn [rv rw re app]; [|reflexivity].
+  specialize (Hr n wm eq_refl). subst wm. cbn [fst snd].
+  rewrite bind_unfold. rewrite journal_step_no_events.
+  set (wm := mkMsg (mtype m) (wire_tags c n m)).
+  set (J := (if skip_journal m then ret tt else persist_out n wm) we).
+  assert (HJ : rv J = inl tt -> skip_journal m = false -> In (n, wm) (j_out (jr (rw J)))).
+  { subst J. destruct (skip_journal m); [discriminate 2|]. unfold persist_out.
+    destruct (negb _); [discriminate|]. destruct (has_key _ _); [discriminate|].
+    intros _ _. cbn. apply in_or_app. right. left. reflexivity. }
+  destruct (rv J) as [[]|x]; cbn [rv rw re app]; [|reflexivity].
+  msimp. destruct (wr (rw J)); msimp; [|reflexivity].
+  exists n. split; [reflexivity|]. apply HJ. reflexivity.
+Qed.
+
+Lemma send_tail_journal_first c m w0 w :
+  match rv (send_tail c m w0 w) with
+  | inr _ => re (send_tail c m w0 w) = []
+  | inl _ => exists n, re (send_tail c m w0 w) = [Wire (mkMsg (mtype m) (wire_tags c n m))]
+                       /\ (skip_journal m = false ->
+                           In (n, mkMsg (mtype m) (wire_tags c n m)) (j_out (jr (rw (send_tail c m w0 w)))))
+  end.
+Proof.
+  unfold send_tail. rewrite bind_unfold.
+  set (G := match mkind m, treq w0 with KTestReq, None => raise XConn | _, _ => ret tt end w).
+  assert (HG : G = mkR (inr XConn) w [] \/ G = mkR (inl tt) w []).
+  { subst G. destruct (mkind m), (treq w0); auto. }
+  destruct HG as [HG|HG]; rewrite HG; cbn [rv rw re app]; [reflexivity|].
+  pose proof (send_write_journal_first c m w) as H.
+  destruct (rv (send_write c m w)); exact H.
+Qed.
+
+Lemma send_msg_journal_first c m w :
+  match rv (send_msg c m w) with
+  | inr _ => wires (re (send_msg c m w)) = []
+  | inl _ => exists n, wires (re (send_msg c m w)) = [mkMsg (mtype m) (wire_tags c n m)]
+                       /\ (skip_journal m = false ->
+                           In (n, mkMsg (mtype m) (wire_tags c n m)) (j_out (jr (rw (send_msg c m w)))))
+  end.
+Proof.
+  unfold send_msg. rewrite bind_unfold. cbn [getw rv rw re app]. rewrite bind_unfold.
+  destruct (send_gate_cases2 m w) as [H|[[Hst H]|[H6 [Hk H]]]]; rewrite H; cbn [rv rw re app].
+  - reflexivity.
+  - pose proof (send_tail_journal_first c m w w) as T.
+    destruct (rv (send_tail c m w w)); [|rewrite T; reflexivity].
+    destruct T as [n [T1 T2]]. exists n. rewrite T1. split; [reflexivity|exact T2].
+  - set (w6 := set_role ROLE_INITIATOR (set_st ST_LOGON_SENT w)).
+    pose proof (send_tail_journal_first c m w w6) as T.
+    destruct (rv (send_tail c m w w6)); [|rewrite T; reflexivity].
+    destruct T as [n [T1 T2]]. exists n. rewrite T1. split; [reflexivity|exact T2].
+Qed.
+
 (* ------------------------------------------------------------------ witnesses *)
 
 Definition cfgS : cfg := cfg0.
@@ -1208,7 +1278,9 @@ Proof.
 Qed.
 
 (* D20: the application sends a plain SequenceReset numbered next_num_out: it goes out and is journaled under that
-   number without consuming it; the next new message carries the same number and its journal write fails *)
+   number without consuming it (the invariant breaks).  Since R8a the next new message no longer reaches the wire
+   with the same number: its journal write fails BEFORE the write, send_msg raises, nothing is written, the
+   application message is lost and its number is burnt (after which counter and journal agree again) *)
 Definition o_seqreset (seq new : Z) :=
   OSend (mkMsg (S "4") [(T123, S "Y"); (T34, z_to_dec seq); (T36, z_to_dec new)]).
 Definition o_reset (seq new : Z) :=
@@ -1218,19 +1290,25 @@ Definition h_app_seqreset := [i_logon 1; o_reset 2 5; o_app "A"].
 Lemma app_seqreset_refuted :
   exists c w h,
     Out_inv w
-    /\ map (fun wm => get T34 (mtags wm)) (wires (trace (run c w h))) = [Some (S "1"); Some (S "2"); Some (S "2")]
-    /\ (exists s, In s (run c w h) /\ rv (s_res s) = inr XDupSeq /\ wires (s_events s) <> [])
-    /\ (exists s, In s (run c w h) /\ Out_inv (s_before s) /\ ~ Out_inv (s_after s)).
+    /\ map (fun wm => get T34 (mtags wm)) (wires (trace (run c w h))) = [Some (S "1"); Some (S "2")]
+    /\ (exists s, In s (run c w h) /\ Out_inv (s_before s) /\ ~ Out_inv (s_after s)
+                  /\ nout (s_after s) = nout (s_before s) /\ has_key (nout (s_after s)) (j_out (jr (s_after s))) = true)
+    /\ (exists s, In s (run c w h) /\ rv (s_res s) = inr XDupSeq /\ s_events s = []
+                  /\ nout (s_after s) = nout (s_before s) + 1
+                  /\ j_out (jr (s_after s)) = j_out (jr (s_before s))).
 Proof.
   exists cfgS, w_acceptor, h_app_seqreset.
   split; [repeat split; try constructor; intros; reflexivity|]. split; [vm_compute; reflexivity|].
   split.
-  - eexists (nth 2 (run cfgS w_acceptor h_app_seqreset) (mkS w_acceptor (i_logon 1) (step cfgS (i_logon 1) w_acceptor))).
-    split; [do 2 right; left; reflexivity|]. split; [vm_compute; reflexivity|]. vm_compute. discriminate.
   - eexists (nth 1 (run cfgS w_acceptor h_app_seqreset) (mkS w_acceptor (i_logon 1) (step cfgS (i_logon 1) w_acceptor))).
-    split; [right; left; reflexivity|]. split.
+    split; [right; left; reflexivity|]. split; [|split; [|split]].
     + split; [vm_compute; reflexivity|]. split; [vm_compute; repeat constructor|]. intros _. vm_compute. reflexivity.
     + intros [H _]. vm_compute in H. discriminate.
+    + vm_compute. reflexivity.
+    + vm_compute. reflexivity.
+  - eexists (nth 2 (run cfgS w_acceptor h_app_seqreset) (mkS w_acceptor (i_logon 1) (step cfgS (i_logon 1) w_acceptor))).
+    split; [do 2 right; left; reflexivity|]. split; [vm_compute; reflexivity|]. split; [vm_compute; reflexivity|].
+    split; vm_compute; reflexivity.
 Qed.
 
 (* an application-sent SequenceReset-GapFill or PossDupFlag=Y message is written but not journaled and consumes
@@ -1270,7 +1348,7 @@ Proof.
   destruct (st w <? ST_NCE); [discriminate|]. cbn [orb] in H.
   destruct (st w =? ST_NCE).
   - destruct (mkind m); cbn in H; try discriminate; reflexivity.
-  - cbn [andb orb] in H. rewrite H. reflexivity.
+  - cbn [andb orb] in H. apply orb_false_iff in H. destruct H as [H1 H2]. rewrite H1, H2. reflexivity.
 Qed.
 
 Lemma send_msg_not_refused c m w :
@@ -1317,11 +1395,11 @@ Definition plain_kind (m : msg) : Prop :=
   mkind m = KApp \/ mkind m = KTestReq \/ mkind m = KHeartbeat \/ mkind m = KResend.
 
 (* C04 (exactly one): a message of a kind without pre-handler, numbered above the expected number, received on a
-   logged-on connection that is not already awaiting a resend, makes the receiver write exactly one ResendRequest
+   connection whose Logon exchange is complete and that is not already awaiting a resend, makes the receiver write exactly one ResendRequest
    from the expected number and wait - provided the outbound side is intact (Out_inv: no D20 damage) *)
 Lemma gap_is_requested c m now w n :
   Out_inv w -> in_i64 (nout w) = true -> validate_integrity c m w = VOk -> get_int T34 m = inl n ->
-  nin w < n -> st w <> ST_AWAITING -> ST_NCE < st w -> gate_refuses (rr_msg w) w = false -> plain_kind m ->
+  nin w < n -> st w <> ST_AWAITING -> ST_LOGON_RECV < st w -> gate_refuses (rr_msg w) w = false -> plain_kind m ->
   exists rr, resends (re (process_message c m now w)) = [rr]
              /\ get T7 (mtags rr) = Some (z_to_dec (nin w)) /\ get T16 (mtags rr) = Some S_0
              /\ apps (re (process_message c m now w)) = []
@@ -1332,7 +1410,11 @@ Proof.
   destruct (check_gaps_requests c n w Hi Hr Hg Hlt Hs) as [w' [pre [rr [Hc [Hp [Hrr [H7 [H16 [Hs' [Hn' Hm']]]]]]]]]].
   assert (Hpart : part1 c m w = mkR (inl (Some false)) w' (pre ++ [Wire rr; State ST_AWAITING])).
   { unfold part1. rewrite bind_unfold. cbn [getw rv rw re app].
-    destruct (st w <? ST_NCE) eqn:E1; [lia|]. destruct (st w =? ST_NCE) eqn:E2; [lia|]. cbn [andb].
+    destruct (st w <? ST_NCE) eqn:E1; [stlia|].
+    assert (early_drop m w = false) as ->
+      by (unfold early_drop; destruct (st w =? ST_NCE) eqn:?, (st w =? ST_LOGON_SENT) eqn:?, (st w =? ST_LOGON_RECV) eqn:?;
+          try stlia; reflexivity).
+    destruct (st w =? ST_NCE) eqn:E2; [stlia|].
     rewrite bind_unfold. unfold pre_handlers. rewrite E2. rewrite bind_unfold. cbn [ret rv rw re app].
     assert (Hpre : (match mkind m with
                     | KLogon => process_logon c m | KSeqReset => process_seqreset c m
